@@ -5,7 +5,7 @@ sys.path.insert(0, os.path.join(vlib.VERIF, "tools"))
 import wiregen
 
 HARNESSES = ("wire_h",)
-MLS = ("wire",)
+MLS = ("wire", "byteswap", "writer")
 THEOREMS = []
 if os.path.exists(os.path.join(vlib.COQ, "Props", "C02.v")):
     THEOREMS = re.findall(r"^Theorem\s+(C02_[A-Za-z0-9_]+)", open(os.path.join(vlib.COQ, "Props", "C02.v")).read(), re.M)
@@ -54,9 +54,25 @@ def run(ctx):
     rep, tier, info = ctx["rep"], ctx["tier"], ctx["info"]
     rnd = random.Random(ctx["seed"])
     progs = special_programs() + [wiregen.rand_program(rnd, max_depth=rnd.choice((1, 2, 3, 3, 5))) for _ in range(1500 if tier == "quick" else 60000)]
+    bs_cov = {}
     if ctx.get("replay"):
         import json
-        progs = [json.load(open(ctx["replay"]))["replay"]["input"]]
+        rp = json.load(open(ctx["replay"]))["replay"]
+        if rp.get("leg") == "writer":
+            from props import c02_writer
+            c02_writer.leg(ctx, rep, rnd, tier, only=rp.get("tokens") or rp.get("input"))
+            progs = []
+        elif rp.get("leg") == "byteswap":
+            from props import c02_byteswap
+            c02_byteswap.leg(ctx, rep, rnd, tier, only=rp.get("message") or rp.get("input", "").split(" ")[-1])
+            progs = []
+        else:
+            progs = [rp["input"]]
+    else:
+        from props import c02_byteswap
+        bs_cov = c02_byteswap.leg(ctx, rep, rnd, tier)
+        from props import c02_writer
+        bs_cov.update({"writer_" + k: v for k, v in c02_writer.leg(ctx, rep, rnd, tier).items()})
     progs = list(dict.fromkeys(progs))
     impl, icr = vlib.run_lines(info["wire_h"], progs)
     model, mcr = vlib.run_lines(info["model"], progs)
@@ -145,13 +161,13 @@ def run(ctx):
                 elif b != want_bytes:
                     rep.violation("message converted from the other byte order re-serialises differently: %s" % p[:200], {"input": p, "be": kv(m)["be"], "impl": r})
     rep.coverage.update({
-        "evaluations": len(progs) + len(phase2), "distinct_nontrivial": len(nontrivial), "programs": len(progs),
+        "evaluations": len(progs) + len(phase2) + bs_cov.get("byteswap_cases", 0) + bs_cov.get("writer_programs", 0), "distinct_nontrivial": len(nontrivial), "programs": len(progs),
         "rule": "well-typed construction programs: random type trees (depth <= 5) with range-edge values, NaN/inf/-0 doubles compared bitwise, empty arrays of every element alignment, "
                 "strings crossing every padding boundary, variants of containers, dict entries, nesting up to 32, 200 arguments; header fields through the setters in random order "
                 "with replacement/deletion; each program: bytes vs spec encoder, spec validity, reparse dump, re-marshal, other-byte-order encoding through the iterator, copy. "
                 "non-trivial = non-empty body; distinct = distinct program text",
         "samples": progs[:3] + progs[len(progs) // 2:len(progs) // 2 + 3],
-        "input_distribution": shapes, "traces_validated_against_impl": len(progs), "disagreements_checked": len(rep.violations),
+        "input_distribution": dict(shapes, **{k: v for k, v in bs_cov.items()}), "traces_validated_against_impl": len(progs), "disagreements_checked": len(rep.violations),
     })
     rep.assumptions = ["'well-typed' = programs the generator builds from a type tree (single complete contained types, non-empty structs, dict entries only in arrays, valid names); API misuse is outside the property",
                        "arrays up to a few KB; the 2^26/2^27 limits are not materialised on the construction side"]
